@@ -115,7 +115,7 @@ SIM = {"quick": [("MC_sim.cfg", 400, 120)], "thorough": [("MC_sim.cfg", 8000, 16
 TWINS = {"quick": 150, "thorough": 3000}
 
 SPECIFIC = {
-    "C04": ["vectors"],
+    "C04": ["vectors", "inbound"],
     "C08": ["vectors", "readersim"],
     "C09": ["shapes", "arenasim"],
     "C19": ["legality"],
@@ -352,7 +352,7 @@ def gen_twins(kind):
     return gen
 
 
-GENERATORS = {"legality": gen_program("legality"), "shapes": gen_program("shapes"), "maxima": gen_program("maxima"),
+GENERATORS = {"inbound": gen_program("inbound"), "legality": gen_program("legality"), "shapes": gen_program("shapes"), "maxima": gen_program("maxima"),
               "twins-aged": gen_aged, "arenasim": gen_arenasim, "readersim": gen_readersim, "timesim": gen_timesim, "vectors": gen_vectors, "twins-stall": gen_twins("stall"), "twins-fragcancel": gen_twins("fragcancel"), "twins-cancel": gen_twins("cancel"), "twins-fragment": gen_twins("fragment"), "common": gen_common, "witness": gen_witness, "cover": gen_cover, "sim": gen_sim}
 
 
